@@ -95,6 +95,32 @@ class Ref:
         return Ref(self.cell, self.path + (p,))
 
 
+class IteRef:
+    """a reference that is `a` under cond and `b` otherwise (result of merging a diamond)"""
+    __slots__ = ("cond", "a", "b")
+
+    def __init__(self, cond, a, b):
+        self.cond, self.a, self.b = cond, a, b
+
+    def get(self):
+        return ite_val(self.cond, self.a.get(), self.b.get())
+
+    def sub(self, p):
+        return IteRef(self.cond, self.a.sub(p), self.b.sub(p))
+
+    def set(self, val):
+        raise Unsupported("write through a merged reference")
+
+
+class ForkRequest(Exception):
+    """raised by a library model whose result depends on a symbolic condition:
+    alts = [(z3 cond, value)] — the interpreter forks, one path per alternative"""
+
+    def __init__(self, alts):
+        Exception.__init__(self, "fork")
+        self.alts = alts
+
+
 class Iter_:
     """slice iterator / zip / rev with concrete length: a python list of items"""
     __slots__ = ("items",)
@@ -127,6 +153,7 @@ class Ctx:
         self.mul_hook = mul_hook
         self.call_hook = call_hook
         self.prune = prune
+        self.merge_diamonds = False
         self.const_cache = {}
         self.stats = {"forks": 0, "calls": 0, "stmts": 0}
 
@@ -155,6 +182,19 @@ class Ctx:
     def find_fn(self, name, nargs=None, argtys=None):
         """resolve a call target text to an Item of this crate (or None)"""
         cands = []
+        name = re.sub(r"::<[^:]*>$", "", name)      # generic instantiation suffix `f::<T>`
+        if name.endswith(">") and not name.startswith("<"):
+            # suffix with paths inside: strip the balanced trailing `::<...>`
+            depth = 0
+            for i in range(len(name) - 1, -1, -1):
+                if name[i] == ">":
+                    depth += 1
+                elif name[i] == "<":
+                    depth -= 1
+                    if depth == 0:
+                        if name[:i].endswith("::"):
+                            name = name[:i - 2]
+                        break
         last = name.split("::")[-1]
         last = re.sub(r"::<.*$", "", last)
         for it in self.items:
@@ -273,7 +313,7 @@ class Exec:
             if inner.startswith("*"):
                 r = self.place(fr, inner[1:])
                 v = r.get()
-                if not isinstance(v, Ref):
+                if not isinstance(v, (Ref, IteRef)):
                     raise Unsupported("deref of non-ref %r in %s" % (v, s))
                 return v
             # (P as Variant)
@@ -324,6 +364,8 @@ class Exec:
             return copy.deepcopy(self.ctx.const_cache[key])
         it = self.find_const(txt)
         if it is None:
+            if re.match(r"^[A-Za-z_][\w:]*$", txt) and "::" in txt and getattr(self.ctx, "opaque_consts", False):
+                return Agg("ExtConst", [txt])   # a constant of another crate: opaque token
             raise Unsupported("const " + txt)
         if it.simple_const is not None:
             v = self.const(it.simple_const, path)
@@ -360,6 +402,13 @@ class Exec:
                     if it.kind == "const" and it.name.split("::")[-1] == last:
                         cands.append(it)
         if not cands:
+            # generic: the definition's path after its `<impl at ..>` segment is a suffix of the use
+            for it in self.ctx.items:
+                if it.kind == "const" and ">::" in it.name:
+                    tl = it.name.split(">::", 1)[1]
+                    if txt == tl or txt.endswith("::" + tl):
+                        cands.append(it)
+        if not cands:
             return None
         if len(cands) > 1:
             # several promoted[k] with the same method name (e.g. sub_assign by ref / by value):
@@ -370,6 +419,8 @@ class Exec:
     # ---- operands / rvalues ---------------------------------------------------
     def operand(self, fr, s, path):
         s = s.strip()
+        if s.startswith("no_retag "):
+            s = s[9:]
         if s.startswith("copy "):
             v = self.place(fr, s[5:]).get()
             return copy_val(v)
@@ -382,13 +433,28 @@ class Exec:
     def rvalue(self, fr, s, path, dest_ty=None):
         s = s.strip()
         ctx = self.ctx
+        if s.startswith("no_retag "):
+            s = s[9:]
+        if s.startswith("PtrMetadata("):
+            v = self.operand(fr, s[len("PtrMetadata("):-1], path)
+            tgt = v.get() if isinstance(v, (Ref, IteRef)) else v
+            return IV(len(tgt.f), "usize")
+        if s.startswith("{closure@"):
+            k = s.index("} {") if "} {" in s else -1
+            fields = []
+            if k > 0:
+                body = s[k + 3:].rstrip("}").strip()
+                for part in split_top(body):
+                    if ": " in part:
+                        fields.append(self.operand(fr, part.split(": ", 1)[1], path))
+            return Agg("closure", fields)
         if s.startswith(("copy ", "move ", "const ")):
             # cast?
             m = re.match(r"^(.*) as (.*?) \((\w+)(?:\(.*\))?\)$", s)
             if m:
                 v = self.operand(fr, m.group(1), path)
                 kind = m.group(3)
-                if kind == "PointerCoercion":
+                if kind in ("PointerCoercion", "PtrToPtr", "Transmute"):
                     return v
                 if kind in ("IntToInt",):
                     return self.int_cast(v, m.group(2).strip(), path)
@@ -432,14 +498,26 @@ class Exec:
         if m:  # ADT constructor: Fp(move _1) / Some(..)
             name = m.group(1)
             return Agg(name, [self.operand(fr, x, path) for x in split_top(m.group(2))])
-        m = re.match(r"^([\w:<>, &\[\]]+?)::(\w+)\((.*)\)$", s)
-        if m and m.group(2) in DISCR:
-            return Agg(m.group(2), [self.operand(fr, x, path) for x in split_top(m.group(3))])
+        # enum variant constructors: `<path with arbitrary generics>::Variant(args)` / `...::Variant`
+        if s.endswith(")"):
+            depth, k = 0, len(s) - 1
+            while k >= 0:
+                if s[k] == ")":
+                    depth += 1
+                elif s[k] == "(":
+                    depth -= 1
+                    if depth == 0:
+                        break
+                k -= 1
+            head, inner = s[:k], s[k + 1:-1]
+            mv = re.search(r"::(\w+)$", head)
+            if mv and mv.group(1) in DISCR:
+                return Agg(mv.group(1), [self.operand(fr, x, path) for x in split_top(inner)] if inner.strip() else [])
+        mv = re.search(r"::(\w+)$", s)
+        if mv and mv.group(1) in DISCR and re.match(r"^[\w:<>, &\[\]()']+$", s):
+            return Agg(mv.group(1), [])
         if re.match(r"^\w+$", s) and s in DISCR:
             return Agg(s, [])
-        m = re.match(r"^([\w:<>, &\[\]]+?)::(\w+)$", s)
-        if m and m.group(2) in DISCR:
-            return Agg(m.group(2), [])
         raise Unsupported("rvalue " + s)
 
     def int_cast(self, v, ty, path):
@@ -496,6 +574,15 @@ class Exec:
             q = z3.Int("wq!%d" % ctx.fresh_n)
             path.side.append(s == r + q * M)
             return IV(r, a.ty)
+        if op in ("Div", "Rem"):
+            if not (b.conc() and b.t > 0):
+                raise Unsupported("division by a non-constant")
+            if a.conc():
+                return IV(a.t // b.t if op == "Div" else a.t % b.t, a.ty)
+            q = ctx.fresh("divq", a.ty, path)
+            r = ctx.fresh_range("divr", b.t, path)
+            path.side.append(a.t == q * b.t + r)
+            return IV(q if op == "Div" else r, a.ty)
         if op in ("Shl", "Shr"):
             if not b.conc():
                 raise Unsupported("symbolic shift amount")
@@ -585,8 +672,28 @@ class Exec:
                     continue
                 if k == "dead":
                     break
+                if k == "forkval":
+                    _, dst, tgt, alts = nxt
+                    live = []
+                    for cond, val in alts:
+                        p2 = path.clone()
+                        p2.pc.append(cond)
+                        if self.feasible(p2):
+                            live.append((p2, val))
+                    for p2, val in live:
+                        stack2 = copy.deepcopy(stack)
+                        self.place(stack2[-1], dst).set(copy.deepcopy(val))
+                        stack2[-1].bb = tgt
+                        work.append((stack2, p2))
+                    break
                 if k == "fork":
                     alts = nxt[1]
+                    if len(alts) == 2 and self.ctx.merge_diamonds:
+                        merged = self.try_merge(stack, path, alts)
+                        if merged is not None:
+                            fr = stack[-1]
+                            fr.bb = merged
+                            continue
                     for cond, tgt in alts[:-1]:
                         stack2 = copy.deepcopy(stack)
                         p2 = path.clone()
@@ -602,6 +709,97 @@ class Exec:
                     continue
                 raise Unsupported("terminator result " + str(nxt))
         return done
+
+    def try_merge(self, stack, path, alts):
+        """both arms of a two-way symbolic branch are short, pure and meet again: execute
+        both, merge the differing locals with if-then-else values and continue at the join
+        (no fork).  Returns the join label or None."""
+        (c0, t0), (c1, t1) = alts
+        outs = []
+        for cond, tgt in ((c0, t0), (c1, t1)):
+            st2 = copy.deepcopy(stack)
+            fr2 = st2[-1]
+            fr2.bb = tgt
+            p2 = path.clone()
+            seq = [tgt]
+            ok = True
+            for _ in range(4):
+                stmts, term = fr2.item.blocks[fr2.bb]
+                try:
+                    for st in stmts:
+                        self.stmt(fr2, st, p2)
+                    self.cur_item = fr2.item
+                    nxt = self.terminator(fr2, term, p2, st2)
+                except (Unsupported, ForkRequest):
+                    ok = False
+                    break
+                if nxt[0] != "goto" or len(st2) != len(stack):
+                    ok = False
+                    break
+                fr2.bb = nxt[1]
+                seq.append(nxt[1])
+                outs_snapshot = None
+            if len(p2.pc) != len(path.pc) or len(p2.oblig) != len(path.oblig):
+                ok = False
+            outs.append((ok, seq, st2, p2, cond))
+        if not (outs[0][0] or outs[1][0]):
+            return None
+        # first common block of the two visit sequences
+        join = None
+        for b in outs[0][1][1:]:
+            if b in outs[1][1][1:]:
+                join = b
+                break
+        if join is None:
+            return None
+        # re-run each arm exactly up to the join
+        finals = []
+        for (_, _, _, _, cond), tgt in zip(outs, (t0, t1)):
+            st2 = copy.deepcopy(stack)
+            fr2 = st2[-1]
+            fr2.bb = tgt
+            p2 = path.clone()
+            try:
+                steps = 0
+                while fr2.bb != join:
+                    stmts, term = fr2.item.blocks[fr2.bb]
+                    for st in stmts:
+                        self.stmt(fr2, st, p2)
+                    self.cur_item = fr2.item
+                    nxt = self.terminator(fr2, term, p2, st2)
+                    if nxt[0] != "goto" or len(st2) != len(stack):
+                        return None
+                    fr2.bb = nxt[1]
+                    steps += 1
+                    if steps > 4:
+                        return None
+            except (Unsupported, ForkRequest):
+                return None
+            if len(p2.pc) != len(path.pc) or len(p2.oblig) != len(path.oblig):
+                return None
+            finals.append((st2, p2, cond))
+        (sa, pa, ca), (sb, pb, cb) = finals
+        # only the top frame's locals may differ (the arms do not write through references)
+        for fa, fb in zip(sa[:-1], sb[:-1]):
+            for l in set(fa.loc) | set(fb.loc):
+                if not same_val(fa.loc.get(l, Cell()).v, fb.loc.get(l, Cell()).v):
+                    return None
+        fa, fb = sa[-1], sb[-1]
+        try:
+            for l in set(fa.loc) | set(fb.loc):
+                va = fa.loc[l].v if l in fa.loc else None
+                vb = fb.loc[l].v if l in fb.loc else None
+                if va is None or vb is None:
+                    continue  # a temporary of one arm only (dead after the join)
+                if not same_val(va, vb):
+                    fa.cell(l).v = ite_val(ca, va, vb)
+        except Unsupported:
+            return None
+        # adopt arm A's (patched) state
+        stack[:] = sa
+        path.side[:] = pa.side + [x for x in pb.side[len(path.side):]]
+        self.ctx.stats["merges"] = self.ctx.stats.get("merges", 0) + 1
+        return join
 
     def closures_of(self, item):
         pre = item.name + "::{closure#"
@@ -706,18 +904,24 @@ class Exec:
             ctx = self.ctx
             ctx.stats["calls"] += 1
             if ctx.call_hook:
-                r = ctx.call_hook(self, fn, args, path)
+                try:
+                    r = ctx.call_hook(self, fn, args, path)
+                except ForkRequest as fk:
+                    return ("forkval", dst, tgt, fk.alts)
                 if r is not None:
                     self.place(fr, dst).set(r)
                     return ("goto", tgt)
-            r = self.intrinsic(fn, args, path)
+            try:
+                r = self.intrinsic(fn, args, path)
+            except ForkRequest as fk:
+                return ("forkval", dst, tgt, fk.alts)
             if r is not NotImplemented:
                 self.place(fr, dst).set(r)
                 return ("goto", tgt)
             cands = ctx.find_fn(fn, len(args))
             if not cands:
                 raise Unsupported("call " + fn)
-            item = self.pick(cands, args)
+            item = self.pick(cands, args, fn)
             nf = Frame(item)
             for (l, _), a in zip(item.params, args):
                 nf.cell(l).v = a
@@ -728,10 +932,21 @@ class Exec:
             return ("call",)
         raise Unsupported("terminator " + t)
 
-    def pick(self, cands, args):
-        """choose among same-named items (by-ref / by-value variants) by argument kinds"""
+    def pick(self, cands, args, fn=""):
+        """choose among same-named items (by-ref / by-value variants) by argument kinds and,
+        for `<Type as Trait>::m` / `Type::m` calls, by the receiver type"""
         if len(cands) == 1:
             return cands[0]
+        m = re.match(r"^<([\w:]+) as [^>]*>::\w+$", fn) or re.match(r"^([\w:]+)::\w+$", fn)
+        if m:
+            ty = m.group(1).split("::")[-1]
+            c3 = [c for c in cands if c.params and re.sub(r"^&(mut )?", "", c.params[0][1].strip()).split("::")[-1] == ty]
+            if not c3:
+                c3 = [c for c in cands if not c.params and c.ret.strip().split("::")[-1] == ty]
+            if c3:
+                cands = c3
+                if len(cands) == 1:
+                    return cands[0]
         def fits(it):
             for (_, pt), a in zip(it.params, args):
                 isref = pt.strip().startswith("&")
@@ -869,7 +1084,10 @@ class Exec:
                 raise Unsupported("slice index out of range (panic path)")
             return Ref(Cell(Agg("slice", vec.f[lo.t:hi.t])))
         if fn in ("<T as IntoIterator>::into_iter", "<<T as IntoIterator>::IntoIter as IntoIterator>::into_iter"):
-            return args[0]
+            a = args[0]
+            if isinstance(a, Agg) and a.kind in ("Vec", "array", "slice"):
+                return Iter_(list(a.f))
+            return a
         if "IndexMut<RangeFull>>::index_mut" in fn or "Index<RangeFull>>::index" in fn:
             return args[0]
         if fn.endswith("ByteOrder>::read_u64_into"):
@@ -951,6 +1169,9 @@ class Exec:
             return a
         if fn.endswith(" as Iterator>::next"):
             it = args[0].get()
+            if isinstance(it, Agg) and it.kind in ("Vec", "array", "slice"):
+                it = Iter_(list(it.f))
+                args[0].set(it)
             if not isinstance(it, Iter_):
                 raise Unsupported("next on " + repr(it))
             if it.items:
@@ -970,7 +1191,51 @@ class Exec:
         return NotImplemented
 
 
+def same_val(a, b):
+    if type(a) is not type(b):
+        return False
+    if isinstance(a, IV):
+        return a.ty == b.ty and (a.t is b.t or (isinstance(a.t, int) and isinstance(b.t, int) and a.t == b.t) or
+                                 (not isinstance(a.t, int) and not isinstance(b.t, int) and a.t.eq(b.t)))
+    if isinstance(a, BV_):
+        return (a.t is b.t) or (isinstance(a.t, bool) and isinstance(b.t, bool) and a.t == b.t) or \
+            (not isinstance(a.t, bool) and not isinstance(b.t, bool) and a.t.eq(b.t))
+    if isinstance(a, Agg):
+        return a.kind == b.kind and len(a.f) == len(b.f) and all(same_val(x, y) for x, y in zip(a.f, b.f))
+    if isinstance(a, str):
+        return a == b
+    if isinstance(a, Ref):
+        return a.path == b.path and same_val(a.cell.v, b.cell.v)
+    if isinstance(a, Iter_):
+        return len(a.items) == len(b.items) and all(same_val(x, y) for x, y in zip(a.items, b.items))
+    if a is None and b is None:
+        return True
+    return False
+
+
+def ite_val(cond, a, b):
+    if same_val(a, b):
+        return a
+    if isinstance(a, IV) and isinstance(b, IV):
+        return IV(z3.If(cond, a.t, b.t), a.ty)
+    if isinstance(a, BV_) and isinstance(b, BV_):
+        ta = z3.BoolVal(a.t) if isinstance(a.t, bool) else a.t
+        tb = z3.BoolVal(b.t) if isinstance(b.t, bool) else b.t
+        return BV_(z3.If(cond, ta, tb))
+    if isinstance(a, Agg) and isinstance(b, Agg) and a.kind == b.kind and len(a.f) == len(b.f):
+        return Agg(a.kind, [ite_val(cond, x, y) for x, y in zip(a.f, b.f)])
+    if isinstance(a, (Ref, IteRef)) and isinstance(b, (Ref, IteRef)):
+        return IteRef(cond, a, b)
+    raise Unsupported("cannot merge %r / %r" % (a, b))
+
+
 def val_eq(a, b):
+    if isinstance(a, str) or isinstance(b, str):
+        return z3.BoolVal(a == b)
+    if isinstance(a, BV_):
+        ta = z3.BoolVal(a.t) if isinstance(a.t, bool) else a.t
+        tb = z3.BoolVal(b.t) if isinstance(b.t, bool) else b.t
+        return ta == tb
     """structural equality of two values as a z3 Bool"""
     if isinstance(a, IV):
         r = (a.t == b.t)
@@ -999,6 +1264,6 @@ CMP = {
     "Lt": lambda a, b: a < b, "Le": lambda a, b: a <= b, "Gt": lambda a, b: a > b,
     "Ge": lambda a, b: a >= b, "Eq": lambda a, b: a == b, "Ne": lambda a, b: a != b,
 }
-BINOPS = set(CMP) | {"Add", "Sub", "Mul", "AddWithOverflow", "SubWithOverflow", "MulWithOverflow",
+BINOPS = set(CMP) | {"Div", "Rem", "Add", "Sub", "Mul", "AddWithOverflow", "SubWithOverflow", "MulWithOverflow",
                      "Shl", "Shr", "BitAnd", "BitOr", "BitXor"}
 DISCR = {"None": 0, "Some": 1, "Less": -1, "Equal": 0, "Greater": 1, "Ok": 0, "Err": 1}
